@@ -55,7 +55,7 @@ func newSource(t testing.TB, n, rich uint32, seed int64, hook func(*config.Block
 	}
 	chainkit.Start(s.bc)
 	gen := histgen.New(t, s.net, s.bc, seed, 6)
-	gen.AvoidOldOracle = true
+	gen.AvoidOldOracle, gen.NoVMStateProbe = true, true // (two known findings of C01 / C20 that would stop a synchronised node for another reason)
 	s.hash = append(s.hash, s.bc.GetHeaderHash(0))
 	r0, err := s.bc.GetStateRoot(0)
 	if err != nil {
